@@ -320,7 +320,7 @@ func (p cfgPath) Remove(cfg *Config, opt *options) (bool, error) {
 	// resolve config object in case we deal with references
 	tmp, err := cur.toConfig(opt)
 	if err != nil {
-		return false, err
+		return false, raiseExpectedObject(opt, cur)
 	}
 	cur = cfgSub{tmp}
 
